@@ -13,19 +13,25 @@ CXXFLAGS := -std=c++17 -O1 -g -fno-omit-frame-pointer $(SAN) -Wall -Wextra -Wno-
    -I$(REPO)/include -I$(B)/include -I$(B) -Isrc
 WRAPS := socket bind listen accept connect getsockname getpeername setsockopt getsockopt ioctl close send sendmsg recv recvmsg \
    epoll_create1 epoll_ctl epoll_wait select timerfd_create timerfd_settime read coap_malloc_type coap_realloc_type coap_free_type exit coap_pdu_parse \
-   fopen fclose fflush fwrite fprintf rename remove
+   fopen fclose fflush fwrite fprintf rename remove pthread_mutex_lock pthread_mutex_trylock pthread_mutex_unlock
 WRAPFLAGS := $(foreach s,$(WRAPS),-Wl,--wrap=$(s))
 # reference models written in parallel are only compiled once marked ready (src/<name>.ready)
 WIP := $(foreach n,r9 r10 r11,$(if $(wildcard src/$(n).ready),,src/$(n).cpp))
 SRCS := $(filter-out $(WIP),$(wildcard src/*.cpp))
-OBJS := $(patsubst src/%.cpp,$(OBJ)/%.o,$(SRCS))
+OBJS := $(patsubst src/%.cpp,$(OBJ)/%.o,$(SRCS)) $(OBJ)/lockimg.o
 BIN := build/simcheck$(if $(filter sim,$(FLAVOUR)),,-$(FLAVOUR))
 
 all: $(BIN)
 
-$(OBJ)/%.o: src/%.cpp $(wildcard src/*.h) $(B)/libcoap-3.a
+# objects depend on the library's headers (public ones and the generated defines), not on the archive: a change to a .c file
+# of /repo only re-links
+$(OBJ)/%.o: src/%.cpp $(wildcard src/*.h) $(wildcard $(REPO)/include/coap3/*.h) $(B)/include/coap3/coap_defines.h
 	@mkdir -p $(OBJ)
 	$(CXX) $(CXXFLAGS) -c $< -o $@
+
+$(OBJ)/lockimg.o: src/lockimg.c $(wildcard $(REPO)/include/coap3/*.h) $(B)/include/coap3/coap_defines.h
+	@mkdir -p $(OBJ)
+	clang -O1 -g -I$(REPO)/include -I$(B)/include -I$(B) -c $< -o $@
 
 $(BIN): $(OBJS) $(B)/libcoap-3.a
 	$(CXX) $(SAN) -o $@ $(OBJS) $(B)/libcoap-3.a $(WRAPFLAGS) -lgnutls -lnettle -lpthread
